@@ -20,6 +20,8 @@ func c03(p *core.Program, r *core.Report) {
 	r.Rule("R5", "fragment hand-out (package pilosa): containers put into fragment storage from another bitmap are frozen or cloned; rows built from storage go through OffsetRange (which freezes)")
 	r.Rule("R6", "a derived collection owns its bookkeeping: in Clone and Freeze of every Containers implementation no slice, map or pointer field of the result object is assigned an expression rooted at the receiver (its field, re-sliced or not)")
 	c03DerivedOwnsItsIndex(p, r)
+	r.Rule("R7", "shared containers are frozen (the assumption R1/R2 make about package-level containers): a package-level *Container of package roaring is initialised, and only ever assigned, from (*Container).Freeze")
+	sharedSingletonsFrozen(p, r, "R7")
 	r.NotDecided = "that Clone/unmapOrClone copy every byte (arithmetic); mmap lifetime across snapshot and close; equality of values after arbitrary histories"
 	rp := p.Pkg("roaring")
 	pk := p.Pkg("")
